@@ -235,3 +235,17 @@ Theorem importer_kind_irrelevant : forall d fuel (reqs : list request),
   table_state (fst (run fuel d boot reqs)) = fst (run_history fuel d init_state (map snd reqs)).
 Proof. exact importer_kind_irrelevant_proof. Qed.
 Print Assumptions importer_kind_irrelevant.
+
+(** ---- round 3: cond-expand feature logic, translated on every run from lib/init-7.scm ---- *)
+From ChibiV Require Import C14.CondExpand Gen.C14_CondExpand C14.CondExpandProofs.
+
+(** [check_agrees f] (CondExpandProofs.v): ce_check FE0 64 W0 (enc_feature f) = Ok v with truthy v = holds feats0 lib_exists0 f *)
+Theorem cond_expand_feature_logic_bounded : forall f, In f depth2 -> check_agrees f = true.
+Proof. exact cond_expand_feature_logic_bounded_proof. Qed.
+Print Assumptions cond_expand_feature_logic_bounded.
+
+(** [expand_agrees cs]: ce_expand on the encoded clause list answers (begin . body) of the first clause whose requirement holds
+    (else = always), #t when there is none -- CondExpand.select *)
+Theorem cond_expand_selects_first_true_clause_bounded : forall cs, In cs clause_lists -> expand_agrees cs = true.
+Proof. exact cond_expand_selects_first_true_clause_bounded_proof. Qed.
+Print Assumptions cond_expand_selects_first_true_clause_bounded.
